@@ -753,3 +753,31 @@ def helper_param_interop(c, f):
     if c["stars"] == 1 and "SHROUD_array" in c["type"]:
         return (ft.startswith("type(") and "shroud_array" in ft and not value), "struct * <-> type(T) by reference"
     return False, "pairing not in the interoperability table"
+
+
+# ------------------------------------------------------------------------------------------------- C06 / T4
+def copy_array_capacity(ctx, tabs, prop="C06"):
+    """the Fortran rows that copy a vector / array out of the C++ object hand the copy helper the DESTINATION and its own
+    capacity -- `{f_var}` and `size({f_var}, kind=C_SIZE_T)`: the helper clamps to it; the source's size would defeat the
+    clamp and write past the caller's array"""
+    n = 0
+    for lang, t in sorted(tabs.items()):
+        for rname, row in sorted(t["rows"].items()):
+            helper = row.get("f_helper") or ""
+            if "copy_array" not in helper:
+                continue
+            text = " ".join(str(x) for k in ("post_call", "call", "pre_call") for x in (row.get(k) or [])).replace("\t", "")
+            for m in re.finditer(r'call\s+\{hnamefunc\d\}\s*\(', text):
+                i = m.end()
+                depth, j = 1, i
+                while j < len(text) and depth:
+                    depth += text[j] == "("
+                    depth -= text[j] == ")"
+                    j += 1
+                args = [a.replace(" ", "") for a in split_args(text[i:j - 1])]
+                n += 1
+                ok = len(args) == 3 and args[1] == "{f_var}" and args[2].lower() == "size({f_var},kind=c_size_t)"
+                ctx.item("%s/T4/%s/%s.copy-helper:destination-capacity" % (prop, lang, rname), ok,
+                         "%s%r: the third argument must be the capacity of the destination, size({f_var},kind=C_SIZE_T)" % (
+                             helper, tuple(args)), sample={"row": rname, "call": args})
+    ctx.item("%s/T4/copy-helper-rows-found" % prop, n >= 4, "only %d copy-helper call sites found (vacuity guard)" % n)
